@@ -431,7 +431,7 @@ def run_stream(stream, seed, n, oracle_fns, shards=None):
             rest = o.split("\t", 1)[1] if "\t" in o else ""
             olines.append("o." + fn + "\t" + rest + "\t" + impl[k])
             oidx.append((k, "impl"))
-            if model[k] != impl[k]:
+            if model[k] != impl[k] and model[k] != "unmodelled":
                 olines.append("o." + fn + "\t" + rest + "\t" + model[k])
                 oidx.append((k, "model"))
     overd = sharded([DRIVER], olines, "MODEL-CRASH", shards=shards) if olines else []
@@ -457,7 +457,9 @@ def run_stream(stream, seed, n, oracle_fns, shards=None):
             sr.fails.append((o, impl[k], model[k]))
         elif v == "bad-op":
             raise MachineryError("stream %s: oracle could not decode observation %r of op %r" % (stream, impl[k][:200], o[:300]))
-        if impl[k] != model[k]:
+        if model[k] == "unmodelled":
+            sr.drift += 1          # outside the modelled class: the oracle still judged the implementation above
+        elif impl[k] != model[k]:
             if v == "unspec" and verd.get((k, "model")) == "unspec":
                 sr.drift += 1
             else:
